@@ -553,3 +553,19 @@ pub fn replay_inner(file: &str) -> i32 {
     let _ = judge(&check, &tier, &case, seed, run);
     0
 }
+
+pub fn judge_file(check: &str, tier: &str, file: &str) -> i32 {
+    crate::interp::install_quiet_panic_hook();
+    let s = std::fs::read_to_string(file).unwrap();
+    let v: Value = serde_json::from_str(&s).unwrap();
+    let program: crate::dsl::Program = serde_json::from_value(if v.get("program").is_some() { v["program"].clone() } else { v.clone() }).unwrap();
+    let mut config = crate::dsl::Config::default();
+    if let Some(c) = v.get("config") {
+        config = serde_json::from_value(c.clone()).unwrap();
+    }
+    println!("program: {}", program);
+    let case = Case { program, config };
+    let rep = judge(check, tier, &case, 1, 1_000_000);
+    println!("{}", serde_json::to_string_pretty(&report_json(0, &case, &rep, true)).unwrap());
+    if rep.violations.is_empty() { 0 } else { 1 }
+}
